@@ -229,12 +229,20 @@ class CG(object):
                                  sorted(self.edges(), key=repr))
 
 
+def _as_graph(g):
+    """a Kripke structure value is its transition graph here (DiGraph-level
+    operations on the subclass)"""
+    return g.g if not hasattr(g, 'nodes') and hasattr(g, 'g') else g
+
+
 def g_subgraph(g, X):
+    g = _as_graph(g)
     V = g.nodes & frozenset(X)
     return CG(V, {s: g.succ[s] & V for s in V})
 
 
 def g_reversed(g):
+    g = _as_graph(g)
     succ = {n: set() for n in g.nodes}
     for s in g.nodes:
         for d in g.succ[s]:
@@ -243,6 +251,7 @@ def g_reversed(g):
 
 
 def g_reach(g, X):
+    g = _as_graph(g)
     X = frozenset(X)
     if not X <= g.nodes:
         raise GraphError('reachability from a non-node %s' % sorted(
@@ -259,6 +268,7 @@ def g_reach(g, X):
 
 
 def g_sccs(g):
+    g = _as_graph(g)
     out = []
     seen = set()
     rg = g_reversed(g)
